@@ -82,3 +82,43 @@ Proof. vm_compute. reflexivity. Qed.
 Print Assumptions c01_no_panic_partial.
 Print Assumptions c01_no_panic.
 Print Assumptions c01_composed_dispatch_same.
+
+(* ---- TSIG-bearing responses in octets (Model/ServerWT.v: handle_message_wt) ----
+   c01_no_panic_tsig_partial: the EXTENDED composed model - which writes the response's TSIG record with the
+   byte-level Writer model (ser_prepare, Writer::set_tsig with the reservation arithmetic, finish_with_mac) instead
+   of keeping the abstract response - returns a response or none, never Panic, for every request, transport,
+   EDNS size, key set, catalog and every clock below 2^48 s, for every verifier that never accepts a MAC
+   ([unverified]: no VOk, no VBadTime) and every hmac: i.e. for all requests whose TSIG is NOT verified - unknown
+   key, unknown / mismatching algorithm (BADKEY), wrong MAC (BADSIG), MAC of a forbidden size (FORMERR), incl. the
+   TC fallback when OPT + TSIG do not fit (set_tsig_or_truncate).  A Panic of the model would be: a failing or
+   panicking Writer step, or Writer::set_tsig refusing a reservation the pre-scan's arithmetic had granted.
+   PARTIAL: the signing modes (BADTIME, verified: TsigMode::Response, MAC = hmac over the RFC 8945 digest) are
+   in the model and in the correspondence run, but not under this theorem. *)
+From QV Require Import Model.ServerWT Proofs.ComposeTsigTopP.
+
+Theorem c01_no_panic_tsig_partial : forall hmac zones negttl answer verify cfg buf req,
+  wf_cfg cfg -> length buf = c_buflen cfg -> (c_now cfg < 281474976710656)%N -> unverified verify ->
+  catalog_ok cfg zones -> wf_bytes req ->
+  exists x, handle_message_wt hmac zones negttl answer verify cfg buf req = Ok x.
+Proof.
+  intros hmac zones negttl answer verify cfg buf req Hcfg Hbuf Hnow Hunv Hcat Hwf.
+  exact (handle_message_wt_total hmac zones negttl answer verify cfg buf Hcfg Hbuf Hnow Hunv (fun _ _ => True) req Hcat Hwf).
+Qed.
+
+(* non-vacuity: a verifier that rejects every MAC is [unverified]; with it, a request signed with an unknown key is
+   answered NOTAUTH / BADKEY in octets: 12 (header) + 7 (question) + 26 + 1 + 1 (TSIG record, root key and
+   algorithm names) *)
+Example c01_tsig_example :
+  unverified (fun _ _ _ _ _ _ => VBadSig) /\
+  match handle_message_wt (fun _ _ _ => []) (fun _ => None) (fun _ _ => 0%N) (fun _ _ _ _ => empty_body)
+          (fun _ _ _ _ _ _ => VBadSig) (mkConfig Udp 1232 1232 [] [] 1700000000) (repeat 0%N 1232)
+          ([0;7; 0;0; 0;1; 0;0; 0;0; 0;1;  1;97;0; 0;1; 0;1;
+            0; 0;250; 0;255; 0;0;0;0; 0;17;  0; 0;0;101;83;241;0; 1;44; 0;0; 0;7; 0;0; 0;0])%N with
+  | Ok (Some (ROctets len b)) =>
+    firstn len b = [0;7; 128;9; 0;1; 0;0; 0;0; 0;1;  1;97;0; 0;1; 0;1;
+                    0; 0;250; 0;255; 0;0;0;0; 0;17;  0; 0;0;101;83;241;0; 1;44; 0;0; 0;7; 0;17; 0;0]%N
+  | _ => False
+  end.
+Proof. split; [intros rd o m a s n; split; discriminate|]. vm_compute. reflexivity. Qed.
+
+Print Assumptions c01_no_panic_tsig_partial.
